@@ -82,6 +82,11 @@ package strategy
 
 //@ func IterUpdate
 //@   trusted
+//@   at_call lmdb.(*Txn).OpenCursor#0 assert cursor_on_that_dbi: arg1 == dbi
+//@   after_call lmdb.(*Txn).OpenCursor#0 ghost loc_cur := refOf(ret0)
+//@   at_call lmdb.(*Txn).Flags#0 assert flags_of_that_dbi: arg1 == dbi
+//@   after_call lmdb.(*Txn).Flags#0 ghost loc_fl := uint64(ret0)
+//@   at_call strategy.iterBoth#0 assert walks_that_dbi_in_its_key_order: refOf(arg1) == ghost_loc_cur && iff(arg2, ghost_loc_fl & 8 != 0)
 //@   modifies ghost_dirty, ghost_nput, ghost_ndel
 //@   ensures dirty_only_set: ghost_dirty == old(ghost_dirty) || ghost_dirty == 1
 
